@@ -273,7 +273,13 @@ func (d *Data) sendCompressedBlock(ctx *datastore.VersionedCtx, w http.ResponseW
 		return err
 	}
 	if block == nil {
-		return fmt.Errorf("unable to get label block %s", bcoordStr)
+		// nothing is stored at this block coordinate: it reads as background (label 0), as it
+		// does without compression and in any larger or unaligned subvolume.
+		blockSize, ok := d.BlockSize().(dvid.Point3d)
+		if !ok {
+			return fmt.Errorf("block size for data %q is not 3d: %s", d.DataName(), d.BlockSize())
+		}
+		block = labels.MakeSolidBlock(0, blockSize)
 	}
 	if !supervoxels {
 		vc, err := getMapping(d, ctx.VersionID())
